@@ -301,6 +301,10 @@ void XMLDateTime::addDuration(XMLDateTime*             fNewDate
         fNewDate->fValue[CentYear] += fQuotient(temp, 1, 13);
     }
 
+    // fractional seconds take part in the comparison (compareOrder looks at them only when fHasTime is set)
+    fNewDate->fMilliSecond = fDuration->fMilliSecond;
+    fNewDate->fHasTime = true;
+
     //fNewDate->fValue[utc] = UTC_STD_CHAR;
     fNewDate->fValue[utc] = UTC_STD;
 }
@@ -1045,6 +1049,9 @@ void XMLDateTime::parseDuration()
                 , fBuffer
                 , fMemoryManager);
     }
+
+    // the seconds of a duration may have a fraction: let compareOrder see it
+    fHasTime = true;
 
 }
 
